@@ -398,8 +398,9 @@ def _uses_of_value(b, node):
 def r2_batch_commutativity(ctx):
     r = ctx.rule("R2", "create_next_state: no path from a remove_coin to an insert_coin of a batch output; fee accumulators are commutative; other batch loops do keyed inserts only")
     b = ctx.body("melstf::state::applytx::create_next_state", r)
-    ins = [bi for bi, e in q.call_exprs(b, "CoinMapping::insert_coin")]
-    rem = [bi for bi, e in q.call_exprs(b, "CoinMapping::remove_coin")]
+    # where the effects happen in create_next_state: direct calls, or the adapter call (for_each ..) that runs a closure making them
+    ins = [x[0] for x in q.effect_sites(ctx.prog, b, "CoinMapping::insert_coin")]
+    rem = [x[0] for x in q.effect_sites(ctx.prog, b, "CoinMapping::remove_coin")]
     r.check(bool(ins) and bool(rem), "sites", "inserts and removes present", "insert sites %d, remove sites %d" % (len(ins), len(rem)))
     bad = []
     for rb in rem:
